@@ -16,6 +16,9 @@ sys.path.insert(0, os.path.dirname(os.path.dirname(os.path.abspath(__file__))))
 
 
 def main():
+    from verif import linecov
+
+    linecov.start_from_env()
     spec = json.load(open(sys.argv[1]))
     out_path = sys.argv[2]
     seed = spec["seed"]
